@@ -396,6 +396,9 @@ def date(year, month_, day):
     # Excel reference: https://support.microsoft.com/en-us/office/
     #   DATE-function-e36c0c8c-4104-49da-ab83-82328b832349
 
+    # the fraction of a year, month or day is dropped
+    year, month_, day = int(year), int(month_), int(day)
+
     if not (0 <= year <= 9999):
         return NUM_ERROR
 
